@@ -32,8 +32,8 @@ class C09(Check):
             "and a re-read happened after a mutating op; distinct by (backend, clock, op, #retained)")
     assumptions = [
         "time-travel ties (equal millisecond timestamps) must resolve to the most recently committed snapshot",
-        "backwards-running clocks are exercised in C15 only (the property's timestamp lookup presumes "
-        "timestamps that do not decrease in commit order)",
+        "under clocks that step backwards the expected answer is taken literally from the property: the most recently "
+        "COMMITTED retained snapshot whose timestamp is not newer than the requested time",
         "lookup by id may legitimately show a repointed parent after expiry; parent is not compared",
     ]
     require = {"snapshot_rereads": 500, "timestamp_lookups": 500, "id_lookups": 200,
@@ -43,7 +43,7 @@ class C09(Check):
         n = 160 if tier == "quick" else 1600
         for i in range(n):
             yield {"i": i, "seed": seed, "backend": "s3" if i % 4 == 3 else "local",
-                   "clock": "coarse" if i % 2 else "real"}
+                   "clock": ["real", "coarse", "real", "stepback", "coarse", "backwards"][i % 6]}
         # scripted: manifests shared by several snapshots, dropped or rewritten by a delete, then every expiry cutoff
         # (metadata-only and combined with an append), then a collection - every retained snapshot is re-read each step
         k = 0
@@ -165,8 +165,9 @@ class C09(Check):
                     cands = [s for s in retained if s.ts <= tau]
                     exp = None
                     if cands:
-                        mx = max(s.ts for s in cands)
-                        exp = max((s for s in cands if s.ts == mx), key=lambda s: h.snaps[s.id].order).id
+                        # the property's wording: the MOST RECENTLY COMMITTED retained snapshot not newer than tau
+                        # (with timestamps that never decrease this is also the one with the largest timestamp)
+                        exp = max(cands, key=lambda s: h.snaps[s.id].order).id
                     try:
                         g = h.table.time_travel(timestamp=tau)
                     except Exception as e:  # noqa
@@ -176,7 +177,8 @@ class C09(Check):
                     gid = g.snapshot_id if g is not None else None
                     if gid != exp:
                         ties = sum(1 for s in cands if s.ts == max(c.ts for c in cands)) if cands else 0
-                        res.violation(f"time-travel-wrong:{'tie' if ties > 1 else 'notie'}",
+                        regress = any(h.snaps[a.id].order < h.snaps[b.id].order and a.ts > b.ts for a in retained for b in retained)
+                        res.violation(f"time-travel-wrong:{'tie' if ties > 1 else 'clock-regression' if regress else 'notie'}",
                                       f"time_travel(timestamp={tau}) -> {gid}, expected {exp} "
                                       f"(retained ts={[(s.id, s.ts) for s in retained]})", wit)
                         return
